@@ -182,6 +182,18 @@ def ood_views(shape, rng, n):
     return out
 
 
+def sampled_basic_views(shape, rng, tier):
+    """The whole basic view domain of a shape; for the larger 3-d shapes of the quick tier a seeded
+    sample of the full-length tuples (all shorter tuples, bare items, None, Ellipsis are kept)."""
+    vs = list(basic_views(shape))
+    limit = 500 if tier == "quick" else 20000
+    if len(shape) == 3 and len(vs) > limit + 400:
+        short = [v for v in vs if v in ("N", "E") or len(v[1]) < 3]
+        long_ = [v for v in vs if v not in ("N", "E") and len(v[1]) == 3]
+        vs = short + [long_[i] for i in sorted(rng.sample(range(len(long_)), limit))]
+    return vs
+
+
 def shapes_upto(maxdim, maxlen):
     for nd in range(1, maxdim + 1):
         yield from itertools.product(range(1, maxlen + 1), repeat=nd)
@@ -647,12 +659,13 @@ class AttrViews(Base):
         salt = rng.randrange(1 << 20)
         for sh in shapes_upto(3, m):
             nd = len(sh)
+            size = int(np.prod(sh))
             for coords in COORDS:
                 names = attr_names(nd, coords)
                 if coords != "none":
                     names = [n for n in names if n.startswith("world") or n in ("stored", "pixel0")]
-                vs = list(basic_views(sh)) + array_views(sh, rng, 8 if tier == "quick" else 24)
-                full = (nd <= 2 and int(np.prod(sh)) <= 6) or tier == "thorough"
+                vs = sampled_basic_views(sh, rng, tier) + array_views(sh, rng, 8 if tier == "quick" else 24)
+                full = nd <= 2 or (tier == "thorough" and size <= 12)
                 for i, v in enumerate(vs):
                     use = names if (full or view_kind(v) not in ("slices", "mixed", "ints")) else round_robin(names, 2, salt + i)
                     for n in use:
@@ -690,10 +703,6 @@ class AttrViews(Base):
             yield [sh, coords, name, v]
 
 
-def chunked_degenerate(name, viewed_shape_known, view, sh):
-    return None
-
-
 class MaskViews(Base):
     """`data.get_mask(state)` and `data.get_mask(state, view)` for every selection class."""
     name = "mask"
@@ -706,13 +715,14 @@ class MaskViews(Base):
         salt = rng.randrange(1 << 20)
         for sh in shapes_upto(3, m):
             nd = len(sh)
+            size = int(np.prod(sh))
             for coords in (["none", "aff"] if nd <= 2 else ["none"]):
                 names = applicable_states(nd, coords)
                 if coords != "none":
                     names = ["range_world", "and_1"]
-                vs = list(basic_views(sh)) + array_views(sh, rng, 8 if tier == "quick" else 24)
-                full = (nd == 1) or (tier == "thorough" and int(np.prod(sh)) <= 12)
-                per = 3 if tier == "quick" else 10
+                vs = sampled_basic_views(sh, rng, tier) + array_views(sh, rng, 8 if tier == "quick" else 24)
+                full = (nd == 1) or (tier == "thorough" and size <= 12)
+                per = (4 if nd == 2 else 3) if tier == "quick" else 10
                 for i, v in enumerate(vs):
                     use = names if (full or view_kind(v) not in ("slices", "mixed", "ints")) else round_robin(names, per, salt + i)
                     for n in use:
@@ -753,10 +763,13 @@ class MaskViews(Base):
         name = case[2]
         sig = {"state": name.rstrip("0123456789").rstrip("_"), "view": view_kind(case[3])}
         if isinstance(po, list) and len(po) == 2 and isinstance(po[1], list) and po[1] and po[1][0] == "py-exception":
-            if name in ("roi3d", "roi_pre"):
-                sig["construct"] = "chunked-roi-degenerate-view"
-            elif name in ("catroi2d", "catmulti"):
-                sig["construct"] = "cat2d-scalar-view"
+            view = case[3]
+            scalar = isinstance(view, list) and view[0] == "b" and len(view[1]) == len(case[0]) and all(it[0] == "i" for it in view[1])
+            nd_arrays = isinstance(view, list) and view[0] == "a" and len(view[1]) >= 2
+            if name in ("roi3d", "roi_pre") and scalar and po[1][1] == "IndexError":
+                sig["construct"] = "chunked-roi-scalar-view"
+            elif name in ("catroi2d", "catmulti") and (scalar or nd_arrays):
+                sig["construct"] = "cat2d-non-1d-view"
         return sig
 
     def shrink(self, case):
@@ -786,10 +799,10 @@ class IndexedBase(Base):
         if not rsh:
             return ["N"]
         vs = list(basic_views(rsh))
-        if len(vs) > 40:
-            keep = [v for v in vs if v in ("N", "E")] + rng.sample(vs, 24 if tier == "quick" else 120)
+        if len(vs) > 24:
+            keep = [v for v in vs if v in ("N", "E")] + rng.sample(vs, 12 if tier == "quick" else 120)
             vs = keep
-        return vs + array_views(rsh, rng, 4 if tier == "quick" else 12)
+        return vs + array_views(rsh, rng, 3 if tier == "quick" else 12)
 
 
 class IdxAttr(IndexedBase):
@@ -1065,7 +1078,12 @@ class Classes(Base):
         return sx(["cls", case, pyout])
 
 
-THEOREMS = []
+THEOREMS = ["C04." + t for t in (
+    "index_tabulate viewPoints_in_range pixel_view_values pixel_view attr_view attr_view_values derived_view world_view "
+    "roi_pixel_shortcut_values roi_pixel_shortcut_view slice_state_view slice_state_values mask_state_view "
+    "mask_state_general_view element_state_view state_view state_view_values state_view_partial "
+    "chunked_roi_scalar_view_raises loop1d_scalar_view_raises indexed_get indexed_pixel indexed_mask "
+    "indexed_after_reindex indexed_histogram_selection").split()]
 
 PROP = Property(
     id="C04",
